@@ -18,9 +18,11 @@ Ltac inv_auto := intros; split_lookups; simpl in *; eauto.
 Ltac inv_ex H :=
   intros; split_lookups; edestruct H as (? & ? & ?); [eauto..|];
   match goal with
+  | |- ∃ _, <[?k:=_]> _ !! ?k = _ ∧ _ =>
+      eexists; rewrite lookup_insert; (split; [done|]); simplify_eq/=; eauto
   | |- ∃ _, <[?k:=_]> _ !! ?x = _ ∧ _ =>
-      destruct (decide (x = k)) as [->|];
-      [eexists; rewrite lookup_insert; (split; [done|]); simplify_eq/=; eauto
+      destruct (decide (x = k)) as [?|?];
+      [subst; try congruence; eexists; rewrite lookup_insert; (split; [done|]); simplify_eq/=; eauto
       |eexists; rewrite lookup_insert_ne by done; eauto]
   end.
 
@@ -87,3 +89,67 @@ Proof. intros HV. unfold key_eval_name. by rewrite HV. Qed.
 Lemma key_eval_index_val vs e v V :
   vs !! v = Some V → key_eval_index vs e v = if decide (v_parent V = Some e) then Some (v_index V) else None.
 Proof. intros HV. unfold key_eval_index. by rewrite HV. Qed.
+
+(* ---- more rewriting lemmas ------------------------------------------------------------------ *)
+Lemma alter_as_insert {A} (f : A → A) (m : gmap handle A) k x :
+  m !! k = Some x → alter f k m = <[k := f x]> m.
+Proof.
+  intros Hk. apply map_eq. intros k'. destruct (decide (k' = k)) as [->|].
+  - by rewrite lookup_alter, lookup_insert, Hk.
+  - by rewrite lookup_alter_ne, lookup_insert_ne.
+Qed.
+
+(* key_bus_static: writes to the message heap *)
+Lemma key_bus_static_msg_ne ms is m M' b h :
+  h ≠ m → key_bus_static (<[m:=M']> ms) is b h = key_bus_static ms is b h.
+Proof. intros. unfold key_bus_static. by rewrite lookup_insert_ne. Qed.
+Lemma key_bus_static_msg_eq ms is m M' b :
+  key_bus_static (<[m:=M']> ms) is b m =
+  i ← m_sender M'; Ii ← is !! i;
+  if decide (i_parent Ii = Some b) then (if m_hasStatic M' then Some (m_static M') else None) else None.
+Proof. unfold key_bus_static. by rewrite lookup_insert. Qed.
+Lemma key_bus_static_val ms is m M b :
+  ms !! m = Some M → key_bus_static ms is b m =
+  i ← m_sender M; Ii ← is !! i;
+  if decide (i_parent Ii = Some b) then (if m_hasStatic M then Some (m_static M) else None) else None.
+Proof. intros HM. unfold key_bus_static. by rewrite HM. Qed.
+(* key_bus_static: writes to the interface heap that keep the parent bus *)
+Lemma key_bus_static_iface_frame ms is is' b h :
+  (∀ i, i_parent <$> is' !! i = i_parent <$> is !! i) →
+  key_bus_static ms is' b h = key_bus_static ms is b h.
+Proof.
+  intros Hp. unfold key_bus_static. destruct (ms !! h) as [M|]; [|done]. cbn.
+  destruct (m_sender M) as [i|]; [|done]. cbn. specialize (Hp i).
+  destruct (is' !! i) as [I'|], (is !! i) as [I0|]; cbn in *; try done.
+  injection Hp as Hp. by rewrite Hp.
+Qed.
+Lemma iface_parent_frame (is : gmap handle iface_rec) i Ii I' :
+  is !! i = Some Ii → i_parent I' = i_parent Ii →
+  ∀ i0, i_parent <$> <[i:=I']> is !! i0 = i_parent <$> is !! i0.
+Proof.
+  intros HI Hp i0. destruct (decide (i0 = i)) as [->|].
+  - by rewrite lookup_insert, HI; cbn; rewrite Hp.
+  - by rewrite lookup_insert_ne.
+Qed.
+
+(* key_node_name / key_node_id: writes to the node heap and to the bus map *)
+Lemma key_node_name_ne nds ni nd ND' h :
+  h ≠ nd → key_node_name (<[nd:=ND']> nds) ni h = key_node_name nds ni h.
+Proof. intros. unfold key_node_name. by rewrite lookup_insert_ne. Qed.
+Lemma key_node_id_ne nds ni nd ND' h :
+  h ≠ nd → key_node_id (<[nd:=ND']> nds) ni h = key_node_id nds ni h.
+Proof. intros. unfold key_node_id. by rewrite lookup_insert_ne. Qed.
+
+Lemma key_bus_name_frame bs b B B' n h :
+  bs !! b = Some B → b_name B' = b_name B → b_parent B' = b_parent B →
+  key_bus_name (<[b:=B']> bs) n h = key_bus_name bs n h.
+Proof.
+  intros HB Hn Hp. destruct (decide (h = b)) as [->|]; [|by apply key_bus_name_ne].
+  by rewrite key_bus_name_eq, (key_bus_name_val _ _ _ _ HB), Hn, Hp.
+Qed.
+
+(* frame for the network name index when a bus record changes but not its name / parent *)
+Ltac net_names_frame H HB :=
+  let n0 := fresh "n" in let N0 := fresh "N" in let HN0 := fresh "HN" in
+  intros n0 N0 HN0; eapply IndexOK_ext; [by eapply H|];
+  intros ?; by eapply key_bus_name_frame; [exact HB|..].
